@@ -47,6 +47,7 @@ pub fn run(args: &[String]) {
         Some("types") => types(),
         Some("run") => run_one(args),
         Some("api") => api(args),
+        Some("use-scripts") => use_scripts(args),
         Some("apirun") => api_run(args),
         _ => {
             eprintln!("c11 reps|feat|exh|random|masks|types|run|api|apirun");
@@ -592,6 +593,120 @@ fn api(args: &[String]) {
         joined += r.1;
     }
     println!("exh-summary cases={} joined={}", total, joined);
+}
+
+/// Joining scripts shaped by the Universal Shaping Engine (its Arabic-joining pass): script, OpenType script tag,
+/// a few letters.  Right-to-left scripts only (the form is read per character through the cluster).
+const USE_SCRIPTS: &[(&str, [u8; 4], &[u32])] = &[
+    ("Nkoo", *b"nko ", &[0x07CA, 0x07CB, 0x07DE, 0x07EB, 0x07F2, 0x07FA, 0x07C1]),
+    ("Mand", *b"mand", &[0x0840, 0x0841, 0x0846, 0x0847, 0x0849, 0x0856, 0x0859]),
+    ("Adlm", *b"adlm", &[0x1E900, 0x1E922, 0x1E923, 0x1E944, 0x1E94B, 0x1E950]),
+    ("Mani", *b"mani", &[0x10AC0, 0x10AC1, 0x10AC5, 0x10ACD, 0x10AD7, 0x10AE5, 0x10AEB]),
+    ("Phlp", *b"phlp", &[0x10B80, 0x10B81, 0x10B82, 0x10B85, 0x10B8A, 0x10BA9]),
+    ("Rohg", *b"rohg", &[0x10D00, 0x10D01, 0x10D02, 0x10D22, 0x10D24, 0x10D30]),
+    ("Sogd", *b"sogd", &[0x10F30, 0x10F31, 0x10F33, 0x10F34, 0x10F45, 0x10F46, 0x10F51]),
+    ("Ougr", *b"ougr", &[0x10F70, 0x10F71, 0x10F74, 0x10F77, 0x10F82, 0x10F86]),
+    ("Chrs", *b"chrs", &[0x10FB0, 0x10FB2, 0x10FB4, 0x10FB5, 0x10FB8, 0x10FC5]),
+    ("Syrc", *b"syrc", &[0x0712, 0x0715, 0x0718, 0x0721, 0x0730, 0x0640]),
+];
+
+/// A font for one script: its letters map to glyphs 1..=n, GSUB under the script's own tag, the four positional
+/// features of the USE joining pass (isol, init, medi, fina) map every letter to a distinct glyph per form.
+/// `shared`: init and medi reference ONE lookup (medi's); init then adds a second lookup that turns the medial into the
+/// initial glyph - the glyph per form is the same as with one private lookup per feature.
+fn use_font(tag: [u8; 4], letters: &[u32], shared: bool) -> Vec<u8> {
+    use crate::fontgen::*;
+    let n = letters.len() as u16;
+    let mut spec = FontSpec::basic(1 + 5 * n);
+    let mut cmap: Vec<(u32, u16)> = letters.iter().enumerate().map(|(i, c)| (*c, 1 + i as u16)).collect();
+    cmap.sort();
+    spec.cmap = cmap;
+    // form f (0 isol, 1 init, 2 medi, 3 fina) of letter i is glyph 1 + n * (f + 1) + i
+    let plain: Vec<u16> = (1..=n).collect();
+    let form = |f: u16| -> Vec<u16> { (0..n).map(|i| 1 + n * (f + 1) + i).collect() };
+    let single = |from: Vec<u16>, to: Vec<u16>| Lookup::one(SubstSubtable::Single2 { coverage: Coverage::Glyphs(from), substitutes: to });
+    let (feats, lookups): (Vec<(Tag, Vec<u16>)>, Vec<Lookup<SubstSubtable>>) = if shared {
+        (vec![(*b"fina", vec![3]), (*b"init", vec![1, 2]), (*b"isol", vec![0]), (*b"medi", vec![1])],
+         vec![single(plain.clone(), form(0)), single(plain.clone(), form(2)), single(form(2), form(1)), single(plain.clone(), form(3))])
+    } else {
+        (vec![(*b"fina", vec![3]), (*b"init", vec![1]), (*b"isol", vec![0]), (*b"medi", vec![2])],
+         vec![single(plain.clone(), form(0)), single(plain.clone(), form(1)), single(plain.clone(), form(2)), single(plain.clone(), form(3))])
+    };
+    let mut layout = Layout::with_features(feats, lookups);
+    let all = LangSys { required_feature: None, feature_indices: (0..4).collect() };
+    layout.scripts = vec![ScriptRecord { tag, default_langsys: Some(all), langsys: Vec::new() }];
+    spec.gsub = Some(layout);
+    build(&spec)
+}
+
+/// `use-scripts --seed S --n N`: random sequences (with pre-/post-contexts) per USE joining script, through the public
+/// API; prints `use <script> <shared> ; pre cps ; text cps ; post cps ; pre classes ; text classes ; post classes ;
+/// observed feature per character as an index into [isol fina fin2 fin3 medi med2 init] (7 = nominal glyph)`
+fn use_scripts(args: &[String]) {
+    let seed = arg_u64(args, "--seed", 1);
+    let n = arg_u64(args, "--n", 300);
+    let mut r = Rng::new(seed ^ 0x05E5);
+    for t in API_TAGS.iter().enumerate() {
+        println!("apifeat {} {}", t.0, u32::from_be_bytes(*t.1));
+    }
+    // form f of the font -> index into API_TAGS
+    let idx_of = |tag: &[u8; 4]| API_TAGS.iter().position(|t| t == tag).unwrap() as u8;
+    let form_to_action = [idx_of(b"isol"), idx_of(b"init"), idx_of(b"medi"), idx_of(b"fina")];
+    for (si, (iso, tag, letters)) in USE_SCRIPTS.iter().enumerate() {
+        for shared in [false, true] {
+            let data = use_font(*tag, letters, shared);
+            let Some(face) = rustybuzz::Face::from_slice(&data, 0) else {
+                println!("anomaly use-font {} rejected", iso);
+                continue;
+            };
+            let script = rustybuzz::Script::from_iso15924_tag(rustybuzz::ttf_parser::Tag::from_bytes_lossy(iso.as_bytes())).unwrap();
+            let nl = letters.len() as u32;
+            for k in 0..n {
+                let tl = 1 + r.below(5) as usize;
+                let pick = |r: &mut Rng| char::from_u32(letters[r.below(letters.len() as u64) as usize]).unwrap();
+                let pre: Vec<char> = (0..r.below(3)).map(|_| pick(&mut r)).collect();
+                let text: Vec<char> = (0..tl).map(|_| pick(&mut r)).collect();
+                let post: Vec<char> = (0..r.below(3)).map(|_| pick(&mut r)).collect();
+                let (p2, t2, q2) = (pre.clone(), text.clone(), post.clone());
+                let f2 = face.clone();
+                let res = catch(std::panic::AssertUnwindSafe(move || {
+                    let mut b = rustybuzz::UnicodeBuffer::new();
+                    for (i, c) in t2.iter().enumerate() {
+                        b.add(*c, i as u32);
+                    }
+                    if !p2.is_empty() { b.set_pre_context(&p2.iter().collect::<String>()); }
+                    if !q2.is_empty() { b.set_post_context(&q2.iter().collect::<String>()); }
+                    b.set_direction(rustybuzz::Direction::RightToLeft);
+                    b.set_script(script);
+                    b.set_cluster_level(rustybuzz::BufferClusterLevel::Characters);
+                    let gb = rustybuzz::shape(&f2, &[], b);
+                    gb.glyph_infos().iter().map(|i| (i.glyph_id, i.cluster)).collect::<Vec<_>>()
+                }));
+                let obs = match res {
+                    Err(c) => format!("panic {}", c),
+                    Ok(gs) => {
+                        let mut forms = vec![255u8; text.len()];
+                        let mut bad = gs.len() != text.len();
+                        for (g, cl) in &gs {
+                            let k2 = *cl as usize;
+                            if k2 >= text.len() || forms[k2] != 255 || *g == 0 {
+                                bad = true;
+                                break;
+                            }
+                            let (f, i) = ((g - 1) / nl, (g - 1) % nl);
+                            if letters[i as usize] != text[k2] as u32 || f > 4 {
+                                bad = true;
+                                break;
+                            }
+                            forms[k2] = if f == 0 { 7 } else { form_to_action[(f - 1) as usize] };
+                        }
+                        if bad { format!("panic unexpected-output {:?}", gs) } else { forms.iter().map(|x| x.to_string()).collect::<Vec<_>>().join(" ") }
+                    }
+                };
+                println!("use {} {} {} ; {} ; {} ; {} ; {} ; {} ; {} ; {}", iso, shared as u8, si * 100000 + k as usize, cps(&pre), cps(&text), cps(&post), cls(&pre), cls(&text), cls(&post), obs);
+            }
+        }
+    }
 }
 
 /// `apirun SCRIPT PRE TEXT POST` -> `apiran <feature tag per character | error>`
